@@ -1361,6 +1361,24 @@ def check_C06(ck):
         sc = [("h2c/same-msg-dst-different-suite", "h2c %s %s %s %s %s" % (tag, x, mode, hx(m0), hx(d0))) for (x, mode) in seq]
         for c, (impl, _), w in zip(sc, ck.run(sc), want2):
             ck.expect(impl == g.A(w), "rfc-suite:back-to-back", c[1], impl, g.A(w), "result depends only on (suite, msg, dst), not on the previous call")
+        # chosen field elements through the whole public pipeline (a fixed expander returns prescribed uniform bytes):
+        # limb-structured, zero-component and colliding u values cannot be reached by searching hash preimages
+        ls = limb_specials(rng, 1)
+        if tag == "g1":
+            uvals = [0, 1, Q - 1] + ls[:6]
+            enc = lambda u: u.to_bytes(64, "big")
+        else:
+            uvals = [(0, 0), (1, 0), (0, 1)] + [(a, 1) for a in ls[:4]] + [(a, 2) for a in ls[:2]] + [(0, a) for a in ls[:2]]
+            enc = lambda u: u[0].to_bytes(64, "big") + u[1].to_bytes(64, "big")
+        fx, fus = [], []
+        for u in uvals:
+            fx.append(("h2c/fixed-uniform-bytes/nu", "h2cfix %s nu %s" % (tag, enc(u).hex()))); fus.append([u])
+            v = rng.choice(uvals)
+            fx.append(("h2c/fixed-uniform-bytes/ro", "h2cfix %s ro %s" % (tag, (enc(u) + enc(v)).hex()))); fus.append([u, v])
+            fx.append(("h2c/fixed-uniform-bytes/ro-equal", "h2cfix %s ro %s" % (tag, (enc(u) + enc(u)).hex()))); fus.append([u, u])
+        fwant, _, _ = _compose_map(ck, g, tag, fus, "h2cfix")
+        for c, (impl, _), w in zip(fx, ck.run(fx), fwant):
+            ck.expect(impl == g.A(w), "rfc-suite:chosen-u", c[1][:100], impl, g.A(w), "hash_to_curve pipeline on chosen field elements")
         # determinism: same call twice in the same process
         rep = cases[:3] + cases[:3]
         rr = ck.run(rep)
